@@ -42,18 +42,18 @@ SPEC = Spec(
                     "BitcoinNode.handleReject", "BitcoinNode.handleAddress", "BitcoinNode.handleGetAddresses",
                     "BitcoinNode.handleExtended", "BitcoinNode.handleInventory", "BitcoinNode.handleTx",
                     "BitcoinNode.handleBlock", "discardBlock"],
-    partial_note="theorems cover: frame parsing, unhandled commands, all readMessage-based handlers (any payload), getaddr, unrequested blocks, extended framing, "
-                 "never blocked, ping->pong in every reachable state; inv / headers list exactness and the requested-block parse are covered by the correspondence, not by a theorem",
+    partial_note="theorems cover: frame parsing, unhandled commands, all readMessage-based handlers (any payload), getaddr, inv and headers lists of any length, unrequested "
+                 "blocks, extended framing, never blocked, ping->pong in every reachable state; the streaming transaction parse of the REQUESTED block is covered by the correspondence, not by a theorem",
 )
 
 META = dict(
     technique="Lean 4 proof (byte accounting of every handler incl. uint64 discard arithmetic, frame-parsing theorem, invariant over all histories) + model/implementation correspondence",
     text="Theorems for every state, payload and following bytes: a classic frame of a command without handler is skipped exactly; version/verack/protoconf/ping/pong/reject/addr/tx frames are consumed "
-         "to exactly their declared length or the connection ends (never waiting, never blocked); getaddr; a block other than the requested one; extended frames (tx, block, unknown; ready or not) consume "
+         "to exactly their declared length or the connection ends (never waiting, never blocked); getaddr; inv and headers whose list is as long as the count says (any length, incl. empty); a block other than the requested one; extended frames (tx, block, unknown; ready or not) consume "
          "24+20+length; the deferred DiscardInputWithCounter is exact whenever the handler stayed within the declared length; no input blocks the read loop (C14_never_wedges); in every reachable state "
          "a ping is answered by the pong with its nonce and the next message starts right behind it (C14_ping_after_any_sequence). The byte-level model is tied to handlers.go/messages.go by differential "
          "runs of a scripted peer with a barrier ping after every message (0 divergences required).",
-    note=COMMON_NOTE + "Partial at theorem level: exactness for inv / headers lists (count-driven loops) and for the requested block's streaming transaction parse is established by the correspondence runs "
-         "(generator covers empty/full lists, requested/unrequested blocks), not by a Lean theorem. Found and fixed during construction: the 11th extra version/verack after the handshake blocked the read "
+    note=COMMON_NOTE + "Partial at theorem level: exactness for the requested block's streaming transaction parse is established by the correspondence runs "
+         "(generator requests blocks and delivers them classic and extended), not by a Lean theorem. Found and fixed during construction: the 11th extra version/verack after the handshake blocked the read "
          "loop for ever (no pong); regression corpus/C14/node-handshake-channel-wedge.ops.",
 )
